@@ -156,3 +156,71 @@ fn c07_twin_must_fail() {
     assert!(w.get_ref().short_writes == 0, "twin: a short write must be possible");
     core::mem::forget(w);
 }
+
+/// A sink that accepts at most `cap` bytes per call (cap symbolic, >= 1) and
+/// stores what it accepted.
+pub struct CapSink<const N: usize> {
+    pub buf: [u8; N],
+    pub pos: usize,
+    pub cap: usize,
+    pub short: bool,
+}
+
+impl<const N: usize> Write for CapSink<N> {
+    fn write(&mut self, b: &[u8]) -> io::Result<usize> {
+        let mut i = 0;
+        while i < b.len() && i < self.cap && self.pos < N {
+            self.buf[self.pos] = b[i];
+            self.pos += 1;
+            i += 1;
+        }
+        if i < b.len() {
+            self.short = true;
+        }
+        Ok(i)
+    }
+    fn flush(&mut self) -> io::Result<()> {
+        Ok(())
+    }
+}
+
+/// The node encoder hands every byte to the sink whatever the per-call cap:
+/// bytes received under a capped sink == bytes received by an all-accepting
+/// sink (any emission that used `write` instead of `write_all` loses bytes).
+fn encoder_capped<const T: usize>() {
+    use crate::c01_node::{any_node, to_builder_node, START};
+    let n = any_node::<T>();
+    let bn = to_builder_node(&n);
+    let mut full = crate::util::ArraySink::<24>::new(0);
+    let r1 = bn.compile_to(&mut full, n.last_addr, START);
+    assert!(r1.is_ok());
+    core::mem::forget(r1);
+    let cap: usize = kani::any();
+    kani::assume(cap >= 1 && cap <= 8);
+    let mut capped = CapSink::<24> { buf: [0u8; 24], pos: 0, cap, short: false };
+    let r2 = bn.compile_to(&mut capped, n.last_addr, START);
+    assert!(r2.is_ok(), "encoder failed although the sink only shortened writes");
+    core::mem::forget(r2);
+    assert!(capped.pos == full.pos, "bytes were lost under short writes");
+    let mut i = 0;
+    while i < 24 {
+        if i < full.pos {
+            assert!(capped.buf[i] == full.buf[i], "different bytes under short writes");
+        }
+        i += 1;
+    }
+    kani::cover!(capped.short, "a short write happened");
+    core::mem::forget(bn);
+}
+
+#[kani::proof]
+#[kani::unwind(25)]
+fn c07_encoder_capped_t1() {
+    encoder_capped::<1>();
+}
+
+#[kani::proof]
+#[kani::unwind(25)]
+fn c07_encoder_capped_t2() {
+    encoder_capped::<2>();
+}
